@@ -9,3 +9,7 @@ import Dm.Props.C08
 #print axioms Dm.Props.C08.into_from_id
 #print axioms Dm.Props.C08.from_into_id
 #print axioms Dm.Props.C08.new_ith
+#print axioms Dm.Props.C08.direct_inits_eval
+#print axioms Dm.Props.C08.mapM_length
+#print axioms Dm.Props.C08.mapM_forall
+#print axioms Dm.Props.C08.intoKind_fields
